@@ -214,5 +214,252 @@ theorem shiftsFrom_err (p : ℕ) (ds : List ℚ) (i : ℕ) :
         simp only [hz]
         push_cast; linarith
 
+/-! ### one piece, no label in force -/
+
+/-- total of the modifications listed under key `j` -/
+def sumAt (E : Env) (cur : Option (List (Int × List Mod))) (j : Int) : ℚ :=
+  match cur with
+  | none => 0
+  | some d => sumInternal E (d.filter fun q => decide (q.1 = j))
+
+theorem sumInternal_map_key (E : Env) (f : Int → Int) (d : List (Int × List Mod)) :
+    sumInternal E (d.map fun q => (f q.1, q.2)) = sumInternal E d := by
+  induction d with
+  | nil => rfl
+  | cons q d ih => simp only [List.map_cons, sumInternal, ih]
+
+theorem plainMass_bare (E : Env) (sq : List Char) : plainMass E { seq := sq } = sumRes E sq := by
+  simp [plainMass, optSum, optInt, optIntervals]
+
+theorem massOf_bare (E : Env) (sq : List Char) : massOf E { seq := sq } = .ok (sumRes E sq + E.adj) := by
+  simp [massOf, massFast, plainMass_bare]
+
+theorem slice_of_hasMods (b : Annotation) (start stop : ℕ) (h : hasMods b = true) :
+    slice b start stop =
+      { b with seq := (b.seq.take stop).drop start,
+               internal := b.internal.map fun d =>
+                 (d.filter fun p => decide (Int.ofNat start ≤ p.1) && decide (p.1 < Int.ofNat stop)).map fun p => (p.1 - Int.ofNat start, p.2),
+               intervals := b.intervals.map fun l =>
+                 (l.filter fun iv => decide (iv.start < Int.ofNat stop) && decide (iv.stop > Int.ofNat start)).map fun iv =>
+                   { iv with start := max 0 (iv.start - Int.ofNat start), stop := max 0 (iv.stop - Int.ofNat start) },
+               nterm := if start > 0 then none else b.nterm,
+               cterm := if stop < b.seq.length then none else b.cterm } := by
+  simp [slice, h]
+
+def pieceInternal (cur : Option (List (Int × List Mod))) (j : ℕ) : Option (List (Int × List Mod)) :=
+  cur.map fun d => (d.filter fun q => decide (q.1 = (j : Int))).map fun q => (q.1 - Int.ofNat j, q.2)
+
+/-- the piece of residue `j` of a condensed, unlabelled annotation differs from its stripped form by exactly the
+modifications listed on residue `j` -/
+theorem pieceDiff_core (E : Env) (c : Annotation) (j : ℕ) (hiso : c.isotope = none) (hst : c.static = none) :
+    pieceDiff E { slice (core c) j (j + 1) with labile := none } = .ok (sumAt E c.internal j) := by
+  cases hm : hasMods (core c) with
+  | false =>
+    have hint : c.internal = none := by
+      simp only [hasMods, core, Bool.or_eq_false_iff] at hm
+      have := hm.1.1.1.2
+      cases h : c.internal with
+      | none => rfl
+      | some d => rw [h] at this; simp at this
+    have hp : ({ slice (core c) j (j + 1) with labile := none } : Annotation) = { seq := ((core c).seq.take (j + 1)).drop j } := by
+      simp [slice, hm]
+    rw [hp]
+    simp [pieceDiff, stripped, massOf_bare, sumAt, hint]
+  | true =>
+    have hfilter : ∀ d : List (Int × List Mod),
+        (d.filter fun q => decide ((Int.ofNat j) ≤ q.1) && decide (q.1 < Int.ofNat (j + 1))) =
+        d.filter fun q => decide (q.1 = (j : Int)) := by
+      intro d
+      apply List.filter_congr
+      intro q _
+      rw [Bool.eq_iff_iff]
+      simp only [Bool.and_eq_true, decide_eq_true_eq, Int.ofNat_eq_natCast]
+      push_cast; omega
+    have hpiece : ({ slice (core c) j (j + 1) with labile := none } : Annotation) =
+        { seq := (c.seq.take (j + 1)).drop j, internal := pieceInternal c.internal j } := by
+      rw [slice_of_hasMods _ _ _ hm]
+      simp only [core, hiso, hst, Option.map_none, ite_self, pieceInternal]
+      cases hi : c.internal with
+      | none => rfl
+      | some d => simp only [Option.map_some, hfilter]
+    rw [hpiece]
+    have hmass : massOf E { seq := (c.seq.take (j + 1)).drop j, internal := pieceInternal c.internal j } =
+        .ok (sumRes E ((c.seq.take (j + 1)).drop j) + sumAt E c.internal j + E.adj) := by
+      simp only [massOf, massFast, plainMass, optSum, optIntervals, ite_self, pieceInternal]
+      cases hi : c.internal with
+      | none => simp [optInt, sumAt]
+      | some d =>
+        simp only [Option.map_some, optInt, sumAt, sumInternal_map_key E (fun k => k - Int.ofNat j)]
+        congr 1; ring
+    unfold pieceDiff stripped
+    rw [hmass, massOf_bare]
+    simp
+
+/-! ### all pieces -/
+
+theorem pieceDiffs_map {α : Type} (E : Env) (f : α → Annotation) (g : α → ℚ) (l : List α)
+    (h : ∀ i ∈ l, pieceDiff E (f i) = .ok (g i)) : pieceDiffs E (l.map f) = .ok (l.map g) := by
+  induction l with
+  | nil => rfl
+  | cons x l ih =>
+    have hx := h x (by simp)
+    have hl := ih (fun i hi => h i (by simp [hi]))
+    simp [pieceDiffs, hx, hl]
+
+theorem splitPieces_core (c : Annotation) :
+    splitPieces (core c) = (List.range c.seq.length).map fun i => { slice (core c) i (i + 1) with labile := none } := by
+  simp [splitPieces, core]
+
+theorem pieceDiffs_core (E : Env) (c : Annotation) (hiso : c.isotope = none) (hst : c.static = none) :
+    pieceDiffs E (splitPieces (core c)) = .ok ((List.range c.seq.length).map fun i => sumAt E c.internal (i : ℕ)) := by
+  rw [splitPieces_core]
+  exact pieceDiffs_map E _ _ _ (fun i _ => pieceDiff_core E c i hiso hst)
+
+/-- every key of the residue-modification dict is a position of the sequence -/
+def InRange (c : Annotation) : Prop := ∀ q ∈ c.internal.getD [], 0 ≤ q.1 ∧ q.1 < (c.seq.length : Int)
+
+theorem listSum_indicator (n : ℕ) (k : Int) (x : ℚ) (h0 : 0 ≤ k) (h1 : k < (n : Int)) :
+    listSum ((List.range n).map fun j => if k = (j : Int) then x else 0) = x := by
+  induction n with
+  | zero => omega
+  | succ n ih =>
+    rw [List.range_succ, List.map_append]
+    have happ : ∀ a b : List ℚ, listSum (a ++ b) = listSum a + listSum b := by
+      intro a b; induction a with
+      | nil => simp [listSum]
+      | cons y a iha => simp only [List.cons_append, listSum, iha]; ring
+    rw [happ]
+    by_cases hk : k = (n : Int)
+    · subst hk
+      have hz : listSum ((List.range n).map fun j => if ((n : ℕ) : Int) = (j : Int) then x else 0) = 0 := by
+        have : ∀ l : List ℕ, (∀ j ∈ l, j < n) → listSum (l.map fun j => if ((n : ℕ) : Int) = (j : Int) then x else 0) = 0 := by
+          intro l hl
+          induction l with
+          | nil => rfl
+          | cons j l ihl =>
+            have hj := hl j (by simp)
+            have : ¬ ((n : ℕ) : Int) = (j : Int) := by omega
+            simp only [List.map_cons, listSum, if_neg this, zero_add]
+            exact ihl (fun j' hj' => hl j' (by simp [hj']))
+        exact this _ (fun j hj => List.mem_range.mp hj)
+      simp [hz, listSum]
+    · have hlt : k < (n : Int) := by push_cast at h1; omega
+      rw [ih hlt]
+      simp [listSum, hk]
+
+theorem listSum_add_map (l : List ℕ) (f g : ℕ → ℚ) :
+    listSum (l.map fun j => f j + g j) = listSum (l.map f) + listSum (l.map g) := by
+  induction l with
+  | nil => simp [listSum]
+  | cons x l ih => simp only [List.map_cons, listSum, ih]; ring
+
+theorem listSum_sumAt (E : Env) (n : ℕ) (d : List (Int × List Mod)) (h : ∀ q ∈ d, 0 ≤ q.1 ∧ q.1 < (n : Int)) :
+    listSum ((List.range n).map fun j => sumAt E (some d) (j : ℕ)) = sumInternal E d := by
+  induction d with
+  | nil =>
+    have : ∀ l : List ℕ, listSum (l.map fun j => sumAt E (some []) (j : ℕ)) = 0 := by
+      intro l; induction l with
+      | nil => rfl
+      | cons x l ih => simp [listSum, sumAt, sumInternal, ih]
+    simp [this, sumInternal]
+  | cons q d ih =>
+    have hq := h q (by simp)
+    have hd := ih (fun q' hq' => h q' (by simp [hq']))
+    have hsplit : (fun j : ℕ => sumAt E (some (q :: d)) (j : ℕ)) =
+        fun j : ℕ => (if q.1 = (j : Int) then sumMods E q.2 else 0) + sumAt E (some d) (j : ℕ) := by
+      funext j
+      simp only [sumAt, List.filter_cons]
+      by_cases hk : q.1 = (j : Int)
+      · simp [hk, sumInternal]
+      · simp [hk]
+    rw [hsplit, listSum_add_map, hd, listSum_indicator n q.1 _ hq.1 hq.2]
+    simp [sumInternal]
+
+theorem listSum_sumAt_opt (E : Env) (c : Annotation) (h : InRange c) :
+    listSum ((List.range c.seq.length).map fun j => sumAt E c.internal (j : ℕ)) = optInt E c.internal := by
+  cases hi : c.internal with
+  | none =>
+    have : ∀ l : List ℕ, listSum (l.map fun j => sumAt E none (j : ℕ)) = 0 := by
+      intro l; induction l with
+      | nil => rfl
+      | cons x l ih => simp [listSum, sumAt, ih]
+    simp [this, optInt]
+  | some d =>
+    have hd : ∀ q ∈ d, 0 ≤ q.1 ∧ q.1 < (c.seq.length : Int) := by
+      intro q hq; apply h; simp [hi, hq]
+    simp only [optInt]
+    exact listSum_sumAt E c.seq.length d hd
+
+/-! ### the sums written for termini, labile, unknown-position and interval modifications -/
+
+theorem intSum_eq (E : Env) (p : ℕ) (hn : NumericMu E p) (l : List Mod) (h : allInt l = true) :
+    ((intSum l : ℤ) : ℚ) = sumMods E l := by
+  induction l with
+  | nil => simp [intSum, sumMods]
+  | cons m l ih =>
+    simp only [allInt, List.all_cons, Bool.and_eq_true] at h
+    have hl : allInt l = true := h.2
+    cases hv : m.val with
+    | int i =>
+      simp only [intSum, sumMods, modMass, hv, hn.int, ← ih hl]; push_cast; ring
+    | flt r => rw [hv] at h; simp at h
+    | str r => rw [hv] at h; simp at h
+
+theorem roundedSum_err (E : Env) (p : ℕ) (hn : NumericMu E p) (l : List Mod) :
+    |(roundedSum E l p).toRat p - sumMods E l| ≤ halfUlp p := by
+  unfold roundedSum
+  split
+  · rename_i h
+    simp only [Num.toRat, intSum_eq E p hn l h, sub_self, abs_zero]
+    exact halfUlp_nonneg p
+  · simp only [Num.toRat]
+    exact roundNum_err _ p
+
+def cnt {α : Type} : Option α → ℕ
+  | none => 0
+  | some _ => 1
+
+theorem numO_err (E : Env) (p : ℕ) (hn : NumericMu E p) (o : Option (List Mod)) :
+    |numO p (o.map fun l => roundedSum E l p) - optSum E o| ≤ (cnt o : ℚ) * halfUlp p := by
+  cases o with
+  | none => simp [numO, optSum, cnt]
+  | some l => simp only [Option.map_some, numO, optSum, cnt, Nat.cast_one, one_mul]; exact roundedSum_err E p hn l
+
+theorem termNum_zero (E : Env) (p : ℕ) (o : Option (List Mod)) :
+    termNum E p o 0 = o.map fun l => roundedSum E l p := by
+  have : ¬ absQ 0 > threshold := by
+    rw [absQ_eq_abs, abs_zero]; exact not_lt.mpr (le_of_lt threshold_pos)
+  simp [termNum, this]
+
+def cntIntervals : List Interval → ℕ
+  | [] => 0
+  | iv :: r => cnt iv.mods + cntIntervals r
+
+theorem intervals_err (E : Env) (p : ℕ) (hn : NumericMu E p) (l : List Interval) :
+    |outIntervalsL p (l.map fun iv => (iv, iv.mods.map fun ms => roundedSum E ms p)) - sumIntervals E l| ≤
+      (cntIntervals l : ℚ) * halfUlp p := by
+  induction l with
+  | nil => simp [outIntervalsL, sumIntervals, cntIntervals]
+  | cons iv l ih =>
+    have h1 := numO_err E p hn iv.mods
+    simp only [List.map_cons, outIntervalsL, sumIntervals, cntIntervals]
+    have e : numO p (iv.mods.map fun ms => roundedSum E ms p) +
+          outIntervalsL p (l.map fun iv => (iv, iv.mods.map fun ms => roundedSum E ms p)) -
+          (optSum E iv.mods + sumIntervals E l) =
+        (numO p (iv.mods.map fun ms => roundedSum E ms p) - optSum E iv.mods) +
+        (outIntervalsL p (l.map fun iv => (iv, iv.mods.map fun ms => roundedSum E ms p)) - sumIntervals E l) := by ring
+    rw [e]
+    have := abs_add_le (numO p (iv.mods.map fun ms => roundedSum E ms p) - optSum E iv.mods)
+      (outIntervalsL p (l.map fun iv => (iv, iv.mods.map fun ms => roundedSum E ms p)) - sumIntervals E l)
+    push_cast; linarith
+
+def cntIntervalsO : Option (List Interval) → ℕ
+  | none => 0
+  | some l => cntIntervals l
+
+/-- how many numbers the function writes -/
+def written (c : Annotation) (s : Shifts) : ℕ :=
+  s.internal.length + cnt c.nterm + cnt c.cterm + cnt c.labile + cnt c.unknown + cntIntervalsO c.intervals
+
 end CondenseMass
 end Pept
